@@ -437,7 +437,15 @@ def rule_danglings_arg(ctx, c, rule):
     """C06-R4: attachments parked per trace survive cycles."""
     fn = c.fn
     for b, k, t in c.post_sites():
-        src = c.prov.of_operand(fn, t["args"][3])
+        # the parked-attachments argument, located by its type (a map keyed by span id)
+        di = [i for i, ty in enumerate(t.get("arg_tys", [])) if re.search(r"HashMap<fastrace::collector::id::SpanId,", ty)]
+        if not di:
+            if k in ("commit", "sweep"):
+                ctx.fail(rule, HC, fn.loc(b), "the %s release passes the trace's own parked-attachments map" % k,
+                         "the release takes no map of parked attachments at all (argument types %s): an event or property whose "
+                         "target record is delivered in a later cycle has nowhere to wait" % t.get("arg_tys", []), extra="danglings-" + k)
+            continue
+        src = c.prov.of_operand(fn, t["args"][di[0]])
         persistent = has_origin(src, path_suffix=(".danglings",)) and c.from_role(src, "active", suffix=(".danglings",)) and \
             all(("." + c.roles["active"]) in o.path for o in src if o.kind == "param" and o.path[-1:] == (".danglings",))
         if k in ("commit", "sweep"):
